@@ -22,8 +22,23 @@ Section H.
     | (_, st') => st' = pstate_init
     end.
   Proof.
-    unfold HandlerModel.on_input. destruct (feed maxsz st seg); [|reflexivity].
-    destruct (parse p) as [[| |e] st2]; cbn; auto.
+    unfold HandlerModel.on_input, HandlerModel.on_input_rest.
+    destruct (parse (feed_raw st (firstn (maxsz - length (p_buf st)) seg))) as [[| |e] st2]; cbn; auto.
+    destruct (skipn (maxsz - length (p_buf st)) seg); cbn; auto.
+  Qed.
+
+  (* a read that fits is fed whole *)
+  Lemma on_input_rest_fits maxsz st seg : length (p_buf st) + length seg <= maxsz ->
+    on_input_rest typed_other set_cookie maxsz st seg =
+    match parse (feed_raw st seg) with
+    | (PAgain, st2) => (AWait, st2, [])
+    | (PDone, st2) => (AHandler (p_msg st2), reset_request st2, skipn (p_cur st2) (p_buf st2))
+    | (PErr e, st2) => (ARespond (err_code e), reset_request st2, [])
+    end.
+  Proof.
+    intros H. unfold HandlerModel.on_input_rest.
+    rewrite firstn_all2, skipn_all2 by lia.
+    destruct (parse (feed_raw st seg)) as [[| |e] st2]; rewrite ?app_nil_r; reflexivity.
   Qed.
 
   Lemma connection_app : forall a maxsz st b,
@@ -94,39 +109,103 @@ Section H.
   Qed.
 
   (* --- the live connection: nothing is delivered after a refusal --- *)
+  Notation on_read := (on_read typed_other set_cookie).
   Notation serve := (serve typed_other set_cookie).
   Definition is_handler (a : action) : bool := match a with AHandler _ => true | _ => false end.
-  Definition is_respond (a : action) : bool := match a with ARespond _ => true | _ => false end.
+  Definition no_respond (a : action) : bool := negb (is_respond a).
 
-  Theorem serve_length : forall reads maxsz st, length (serve maxsz st reads) = length reads.
+  (* one read: handler calls, then exactly one more action (a last handler call, a wait or a refusal) *)
+  Lemma on_read_shape : forall fuel maxsz st seg acts st',
+    on_read fuel maxsz st seg = Some (acts, st') ->
+    exists pre a, acts = pre ++ [a] /\ forallb is_handler pre = true.
   Proof.
-    induction reads as [|s rest IH]; intros maxsz st; [reflexivity|]. cbn [HandlerModel.serve].
-    destruct (on_input maxsz st s) as [[|m|c] st1]; cbn [length]; rewrite ?map_length, ?IH; reflexivity.
+    induction fuel as [|f IH]; intros maxsz st seg acts st' H; cbn [HandlerModel.on_read] in H;
+      destruct (on_input maxsz st seg) as [a st1]; destruct a as [|m|c];
+      try (inversion H; subst; exists [], AWait; split; reflexivity);
+      try (inversion H; subst; exists [], (ARespond c); split; reflexivity).
+    - destruct (leftover typed_other set_cookie maxsz st seg); [|discriminate].
+      inversion H; subst. exists [], (AHandler m). split; reflexivity.
+    - destruct (leftover typed_other set_cookie maxsz st seg) as [|x l].
+      + inversion H; subst. exists [], (AHandler m). split; reflexivity.
+      + destruct (on_read f maxsz st1 (x :: l)) as [[acts1 st2]|] eqn:R; [|discriminate].
+        inversion H; subst. destruct (IH _ _ _ _ _ R) as [pre [a [E Hp]]]. subst acts1.
+        exists (AHandler m :: pre), a. split; [reflexivity|cbn; exact Hp].
   Qed.
 
-  Lemma waits_no_respond c : forall l : list bytes, In (ARespond c) (map (fun _ : bytes => AWait) l) -> False.
-  Proof. induction l as [|y l IHl]; cbn; [tauto|]. intros [E|E]; [discriminate|auto]. Qed.
+  Lemma handlers_no_respond l : forallb is_handler l = true -> forallb no_respond l = true.
+  Proof.
+    induction l as [|x l IH]; [reflexivity|]. cbn [forallb]. intros H. apply andb_prop in H. destruct H as [Hx Hl].
+    rewrite (IH Hl). destruct x; try discriminate. reflexivity.
+  Qed.
 
-  (* whatever bytes follow a refused request - its own remainder, a request hidden in its body, further requests -
-     the handler is not called again and no second response is sent: after the FIRST refusal every read is ignored *)
-  Theorem nothing_after_refusal : forall reads maxsz st pre c post,
-    serve maxsz st reads = pre ++ ARespond c :: post ->
+  (* the first refusal in a list of actions is where it is *)
+  Lemma first_respond_unique : forall l1 x l2 pre c post,
+    l1 ++ x :: l2 = pre ++ ARespond c :: post ->
+    forallb no_respond l1 = true -> is_respond x = true -> forallb no_respond pre = true ->
+    l1 = pre /\ x = ARespond c /\ l2 = post.
+  Proof.
+    induction l1 as [|y l1 IH]; intros x l2 pre c post H H1 Hx Hp.
+    - destruct pre as [|z pre]; cbn [app] in H.
+      + inversion H; subst. repeat split.
+      + inversion H; subst. cbn [forallb] in Hp. unfold no_respond at 1 in Hp. rewrite Hx in Hp. discriminate.
+    - destruct pre as [|z pre]; cbn [app] in H.
+      + inversion H; subst. cbn in H1. discriminate.
+      + inversion H; subst. cbn [forallb] in H1, Hp. apply andb_prop in H1. apply andb_prop in Hp.
+        destruct (IH x l2 pre c post H3 (proj2 H1) Hx (proj2 Hp)) as [E1 [E2 E3]]. subst. repeat split.
+  Qed.
+
+  Lemma skip_no_respond : forall acts more pre c post,
+    acts ++ more = pre ++ ARespond c :: post ->
+    forallb no_respond acts = true -> forallb no_respond pre = true ->
+    exists pre', pre = acts ++ pre' /\ more = pre' ++ ARespond c :: post.
+  Proof.
+    induction acts as [|y acts IH]; intros more pre c post H Ha Hp.
+    - exists pre. split; [reflexivity|exact H].
+    - destruct pre as [|z pre]; cbn [app] in H.
+      + inversion H; subst. cbn in Ha. discriminate.
+      + inversion H; subst. cbn [forallb] in Ha, Hp. apply andb_prop in Ha. apply andb_prop in Hp.
+        destruct (IH more pre c post H2 (proj2 Ha) (proj2 Hp)) as [pre' [E1 E2]]. subst.
+        exists pre'. split; reflexivity.
+  Qed.
+
+  Lemma existsb_respond_split pre a : forallb is_handler pre = true ->
+    existsb is_respond (pre ++ [a]) = is_respond a.
+  Proof.
+    intros H. rewrite existsb_app. cbn [existsb]. rewrite orb_false_r.
+    replace (existsb is_respond pre) with false; [reflexivity|].
+    symmetry. induction pre as [|x pre IH]; [reflexivity|]. cbn [forallb existsb] in *.
+    apply andb_prop in H. destruct H as [Hx Hl]. rewrite (IH Hl). destruct x; try discriminate. reflexivity.
+  Qed.
+
+  Lemma waits_all_wait (l : list bytes) : forallb is_wait (map (fun _ => AWait) l) = true.
+  Proof. induction l as [|y l IH]; [reflexivity|exact IH]. Qed.
+
+  (* whatever bytes follow a refused request - its own remainder, a request hidden in its body, further requests, in the
+     same read or in later ones - the handler is not called again and no second response is sent: after the FIRST
+     refusal nothing happens any more *)
+  Theorem nothing_after_refusal : forall reads maxsz st all pre c post,
+    serve maxsz st reads = Some all -> all = pre ++ ARespond c :: post ->
     forallb (fun a => negb (is_respond a)) pre = true ->
     forallb is_wait post = true.
   Proof.
-    induction reads as [|s rest IH]; intros maxsz st pre c post H Hn.
-    - destruct pre; discriminate.
-    - cbn [HandlerModel.serve] in H. destruct (on_input maxsz st s) as [[|m|c0] st1].
-      + destruct pre as [|x pre']; [discriminate|]. inversion H; subst. cbn [forallb] in Hn.
-        apply andb_prop in Hn. destruct Hn as [_ Hn]. exact (IH maxsz st1 pre' c post H2 Hn).
-      + destruct pre as [|x pre']; [discriminate|]. inversion H; subst. cbn [forallb] in Hn.
-        apply andb_prop in Hn. destruct Hn as [_ Hn]. exact (IH maxsz st1 pre' c post H2 Hn).
-      + destruct pre as [|x pre'].
-        * inversion H; subst. clear. induction rest; [reflexivity|exact IHrest].
-        * inversion H; subst. cbn in Hn. discriminate.
+    induction reads as [|s rest IH]; intros maxsz st all pre c post H E Hn.
+    - cbn in H. inversion H; subst. destruct pre; discriminate.
+    - cbn [HandlerModel.serve] in H.
+      destruct (on_read (S (length (p_buf st) + length s)) maxsz st s) as [[acts st1]|] eqn:R; [|discriminate].
+      destruct (on_read_shape _ _ _ _ _ _ R) as [hs [a [Ea Hh]]]. subst acts.
+      rewrite (existsb_respond_split hs a Hh) in H.
+      destruct (is_respond a) eqn:Ra.
+      + inversion H; subst all. rewrite <- app_assoc in H1. cbn [app] in H1.
+        destruct (first_respond_unique hs a (map (fun _ => AWait) rest) pre c post H1
+                    (handlers_no_respond hs Hh) Ra Hn) as [_ [_ E3]].
+        subst post. apply waits_all_wait.
+      + destruct (serve maxsz st1 rest) as [more|] eqn:S1; [|discriminate]. inversion H; subst all.
+        assert (Hna : forallb no_respond (hs ++ [a]) = true).
+        { rewrite forallb_app, (handlers_no_respond hs Hh). cbn. unfold no_respond. rewrite Ra. reflexivity. }
+        destruct (skip_no_respond (hs ++ [a]) more pre c post H1 Hna Hn) as [pre' [E1 E2]]. subst pre.
+        rewrite forallb_app in Hn. apply andb_prop in Hn.
+        exact (IH maxsz st1 more pre' c post S1 E2 (proj2 Hn)).
   Qed.
-
-  (* --- C14: the size rule --- *)
 
   Lemma parse_buf st : p_buf (snd (parse st)) = p_buf st.
   Proof.
@@ -139,6 +218,149 @@ Section H.
   Lemma whole_buf acc : p_buf (snd (whole acc)) = acc.
   Proof. unfold ParserModel.whole. rewrite parse_buf. reflexivity. Qed.
 
+  (* --- the loop of one read ends, and requests that share a read are served as on fresh connections --- *)
+
+  Definition good (st : pstate) : Prop :=
+    safe_p st /\ p_step st <= 2 /\ live st.
+
+  Lemma good_init : good pstate_init.
+  Proof. split; [apply safe_init|]. split; [cbn; lia|intros _; reflexivity]. Qed.
+
+  Lemma good_reset st : good (reset_request st).
+  Proof. exact good_init. Qed.
+
+  (* one pass: the parser stays good, and a complete request leaves strictly less behind than there was *)
+  Lemma on_input_rest_good maxsz st seg a st1 rest :
+    good st -> on_input_rest typed_other set_cookie maxsz st seg = (a, st1, rest) ->
+    good st1 /\ (rest <> [] -> length rest < length (p_buf st) + length seg).
+  Proof.
+    intros [Hsafe [Hstep Hlive]]. unfold HandlerModel.on_input_rest.
+    set (room := maxsz - length (p_buf st)).
+    pose proof (parse_safe typed_other set_cookie KRequest (feed_raw st (firstn room seg))
+                  (safe_feed st _ Hsafe) Hstep) as Hok.
+    pose proof (parse_buf (feed_raw st (firstn room seg))) as Hb.
+    destruct (parse (feed_raw st (firstn room seg))) as [[| |e] st2] eqn:E; cbn [ok_result snd] in *.
+    - destruct Hok as [Hs2 Hst2].
+      destruct (skipn room seg); intros H; inversion H; subst.
+      + split; [|congruence]. split; [exact Hs2|]. split; [exact Hst2|].
+        apply (parse_again_live typed_other set_cookie KRequest _ _ (live_feed st _ Hlive) E).
+      + split; [apply good_reset|congruence].
+    - intros H; inversion H; subst. split; [apply good_reset|]. intros _.
+      pose proof (parse_done_progress typed_other set_cookie KRequest _ _ (live_feed st _ Hlive) E) as Hp.
+      destruct Hok as [[[Hc _] _] _]. rewrite Hb in *. cbn [feed_raw p_buf] in *.
+      rewrite app_length, skipn_length, app_length in *.
+      pose proof (firstn_skipn room seg) as Hfs. apply (f_equal (@length _)) in Hfs. rewrite app_length in Hfs.
+      rewrite skipn_length in *. lia.
+    - intros H; inversion H; subst. split; [apply good_reset|congruence].
+  Qed.
+
+  (* the fuel [serve] gives is enough: Handler::onInput returns *)
+  Theorem on_read_fuel : forall fuel maxsz st seg,
+    good st -> length (p_buf st) + length seg <= fuel ->
+    exists acts st', on_read fuel maxsz st seg = Some (acts, st') /\ good st'.
+  Proof.
+    induction fuel as [|f IH]; intros maxsz st seg Hg Hf; cbn [HandlerModel.on_read];
+      unfold HandlerModel.on_input, HandlerModel.leftover;
+      destruct (on_input_rest typed_other set_cookie maxsz st seg) as [[a st1] rest] eqn:E;
+      destruct (on_input_rest_good maxsz st seg a st1 rest Hg E) as [Hg1 Hlen]; cbn [fst snd].
+    - destruct a as [|m|c]; try (exists [AWait], st1; split; [reflexivity|exact Hg1]);
+        try (exists [ARespond c], st1; split; [reflexivity|exact Hg1]).
+      destruct rest as [|x l]; [exists [AHandler m], st1; split; [reflexivity|exact Hg1]|].
+      specialize (Hlen ltac:(discriminate)). lia.
+    - destruct a as [|m|c]; try (exists [AWait], st1; split; [reflexivity|exact Hg1]);
+        try (exists [ARespond c], st1; split; [reflexivity|exact Hg1]).
+      destruct rest as [|x l]; [exists [AHandler m], st1; split; [reflexivity|exact Hg1]|].
+      specialize (Hlen ltac:(discriminate)).
+      assert (Hst1 : st1 = pstate_init).
+      { unfold HandlerModel.on_input_rest in E.
+        destruct (parse (feed_raw st (firstn (maxsz - length (p_buf st)) seg))) as [[| |e] st2].
+        - destruct (skipn (maxsz - length (p_buf st)) seg); inversion E.
+        - inversion E. reflexivity.
+        - inversion E. }
+      subst st1.
+      destruct (IH maxsz pstate_init (x :: l) good_init ltac:(cbn [p_buf pstate_init length] in *; lia))
+        as [acts [st' [R Hg']]].
+      rewrite R. exists (AHandler m :: acts), st'. split; [reflexivity|exact Hg'].
+  Qed.
+
+  Theorem serve_total : forall reads maxsz st, good st -> exists all, serve maxsz st reads = Some all.
+  Proof.
+    induction reads as [|s rest IH]; intros maxsz st Hg; [exists []; reflexivity|].
+    cbn [HandlerModel.serve].
+    destruct (on_read_fuel (S (length (p_buf st) + length s)) maxsz st s Hg ltac:(lia)) as [acts [st1 [R Hg1]]].
+    rewrite R. destruct (existsb is_respond acts); [eexists; reflexivity|].
+    destruct (IH maxsz st1 Hg1) as [more Hm]. rewrite Hm. eexists; reflexivity.
+  Qed.
+
+  (* [r] is exactly one request: complete, nothing behind it *)
+  Definition exact_request (r : bytes) (m : msg) : Prop :=
+    exists st, whole r = (PDone, st) /\ p_msg st = m /\ p_cur st = length r.
+
+  Lemma exact_nonempty r m : exact_request r m -> r <> [].
+  Proof.
+    intros [st [H _]] E. subst r. rewrite (whole_nil typed_other set_cookie KRequest) in H. discriminate.
+  Qed.
+
+  Lemma on_input_rest_exact maxsz r m r2 : exact_request r m -> length r <= maxsz ->
+    on_input_rest typed_other set_cookie maxsz pstate_init (r ++ r2) = (AHandler m, pstate_init, r2).
+  Proof.
+    intros [st [H [Hm Hc]]] Hl. unfold HandlerModel.on_input_rest. cbn [p_buf pstate_init length].
+    rewrite Nat.sub_0_r.
+    rewrite firstn_app, (firstn_all2 r) by lia.
+    rewrite skipn_app, (skipn_all2 r) by lia. cbn [app].
+    set (x := firstn (maxsz - length r) r2).
+    change (parse (feed_raw pstate_init (r ++ x))) with (whole (r ++ x)).
+    rewrite (whole_stable typed_other set_cookie KRequest r x PDone st H ltac:(discriminate)).
+    pose proof (whole_buf r) as Hb. rewrite H in Hb. cbn [snd] in Hb.
+    cbn [feed_raw p_msg p_cur p_buf]. rewrite Hm, Hc, Hb.
+    rewrite skipn_app, skipn_all, Nat.sub_diag. cbn [skipn app].
+    unfold x. rewrite firstn_skipn. reflexivity.
+  Qed.
+
+  (* C04/C14: a complete request within the limit is served whatever follows it in the same read, and what follows is
+     served exactly as the first read of a fresh connection would be *)
+  Theorem pipelined_as_fresh maxsz r m r2 fuel :
+    exact_request r m -> length r <= maxsz -> r2 <> [] ->
+    on_read (S fuel) maxsz pstate_init (r ++ r2) =
+    match on_read fuel maxsz pstate_init r2 with
+    | Some (acts, st) => Some (AHandler m :: acts, st)
+    | None => None
+    end.
+  Proof.
+    intros He Hl Hne. cbn [HandlerModel.on_read]. unfold HandlerModel.on_input, HandlerModel.leftover.
+    rewrite (on_input_rest_exact maxsz r m r2 He Hl). cbn [fst snd].
+    destruct r2 as [|x l]; [congruence|]. reflexivity.
+  Qed.
+
+  Lemma on_read_exact fuel maxsz r m : exact_request r m -> length r <= maxsz ->
+    on_read fuel maxsz pstate_init r = Some ([AHandler m], pstate_init).
+  Proof.
+    intros He Hl. pose proof (on_input_rest_exact maxsz r m [] He Hl) as H. rewrite app_nil_r in H.
+    destruct fuel; cbn [HandlerModel.on_read]; unfold HandlerModel.on_input, HandlerModel.leftover;
+      rewrite H; reflexivity.
+  Qed.
+
+  (* any number of requests in one read: one handler call each, in order, each with the message it would give alone *)
+  Theorem pipelined_requests : forall maxsz rs ms,
+    Forall2 exact_request rs ms -> Forall (fun r => length r <= maxsz) rs -> rs <> [] ->
+    on_read (length rs) maxsz pstate_init (concat rs) = Some (map AHandler ms, pstate_init).
+  Proof.
+    intros maxsz rs ms H. induction H as [|r m rs' ms' Hr Hrest IH]; intros Hl Hne; [congruence|].
+    inversion Hl as [|? ? Hlr Hl']; subst.
+    destruct rs' as [|r' rs''].
+    - inversion Hrest; subst. cbn [concat map]. rewrite app_nil_r.
+      apply (on_read_exact _ maxsz r m Hr Hlr).
+    - change (concat (r :: r' :: rs'')) with (r ++ concat (r' :: rs'')).
+      change (length (r :: r' :: rs'')) with (S (length (r' :: rs''))). cbn [map].
+      assert (Hcne : concat (r' :: rs'') <> []).
+      { inversion Hrest; subst. cbn [concat]. intros E. apply app_eq_nil in E. destruct E as [E _].
+        eapply exact_nonempty; eauto. }
+      rewrite (pipelined_as_fresh maxsz r m (concat (r' :: rs'')) (length (r' :: rs'')) Hr Hlr Hcne).
+      rewrite (IH Hl' ltac:(discriminate)). reflexivity.
+  Qed.
+
+  (* --- C14: the size rule --- *)
+
   Definition act_of (r : pres * pstate) : action :=
     match r with
     | (PAgain, _) => AWait
@@ -146,12 +368,37 @@ Section H.
     | (PErr e, _) => ARespond (err_code e)
     end.
 
+  Definition is_again (r : pres) : bool := match r with PAgain => true | _ => false end.
+
+  Lemma act_of_stable b e r st : whole b = (r, st) -> r <> PAgain -> act_of (whole (b ++ e)) = act_of (whole b).
+  Proof.
+    intros H Hr. rewrite (whole_stable typed_other set_cookie KRequest b e r st H Hr), H.
+    destruct r; [congruence| |]; reflexivity.
+  Qed.
+
+  Lemma on_input_fits maxsz st seg : length (p_buf st) + length seg <= maxsz ->
+    on_input maxsz st seg =
+    match parse (feed_raw st seg) with
+    | (PAgain, st2) => (AWait, st2)
+    | (PDone, st2) => (AHandler (p_msg st2), reset_request st2)
+    | (PErr e, st2) => (ARespond (err_code e), reset_request st2)
+    end.
+  Proof.
+    intros H. unfold HandlerModel.on_input. rewrite (on_input_rest_fits maxsz st seg H).
+    destruct (parse (feed_raw st seg)) as [[| |e] st2]; reflexivity.
+  Qed.
+
+  (* the request is served as if there were no limit when it is not longer than the limit, or when it is complete
+     (or refused for another reason) within its first [maxsz] bytes - what follows it in the last read does not count *)
+  Definition within (maxsz : nat) (total : bytes) : bool :=
+    (length total <=? maxsz)%nat || negb (is_again (fst (whole (firstn maxsz total)))).
+
   (* one message delivered in reads [segs] after [acc] was already buffered; every proper
      prefix (at read boundaries) is an incomplete message *)
   Theorem size_rule : forall maxsz segs acc stc,
     whole acc = (PAgain, stc) -> length acc <= maxsz -> segs <> [] ->
     (forall k, k < length segs -> fst (whole (acc ++ concat (firstn k segs))) = PAgain) ->
-    if (length (acc ++ concat segs) <=? maxsz)%nat
+    if within maxsz (acc ++ concat segs)
     then fst (connection maxsz stc segs)
          = repeat AWait (length segs - 1) ++ [act_of (whole (acc ++ concat segs))]
     else exists j, j < length segs
@@ -160,18 +407,62 @@ Section H.
   Proof.
     induction segs as [|s rest IH]; intros acc stc Hacc Hal Hne Hpre; [congruence|].
     pose proof (whole_buf acc) as Hbuf. rewrite Hacc in Hbuf. cbn [snd] in Hbuf.
-    cbn [HandlerModel.connection]. unfold HandlerModel.on_input, feed. rewrite Hbuf.
+    cbn [HandlerModel.connection].
     destruct (Nat.ltb_spec maxsz (length acc + length s)) as [Hover|Hfit].
-    - (* this read crosses the limit *)
-      destruct (connection maxsz (reset_request stc) rest) as [acts st2] eqn:Ec.
-      destruct (Nat.leb_spec (length (acc ++ concat (s :: rest))) maxsz) as [Hle|Hgt].
-      + cbn [concat] in Hle. rewrite !app_length in Hle. lia.
-      + exists 0. split; [cbn; lia|]. split; [reflexivity|].
+    - (* this read crosses the limit: only what fits is fed *)
+      set (room := maxsz - length acc).
+      assert (Hmore : skipn room s <> []).
+      { intros E. apply (f_equal (@length _)) in E. rewrite skipn_length in E. cbn in E. lia. }
+      assert (Hoi : on_input maxsz stc s =
+                    match whole (acc ++ firstn room s) with
+                    | (PAgain, st2) => (ARespond 413, reset_request st2)
+                    | (PDone, st2) => (AHandler (p_msg st2), reset_request st2)
+                    | (PErr e, st2) => (ARespond (err_code e), reset_request st2)
+                    end).
+      { unfold HandlerModel.on_input, HandlerModel.on_input_rest. rewrite Hbuf. fold room.
+        rewrite (merge_from_init typed_other set_cookie KRequest acc stc (firstn room s) Hacc).
+        destruct (whole (acc ++ firstn room s)) as [[| |e] st2]; try reflexivity.
+        destruct (skipn room s); [congruence|reflexivity]. }
+      rewrite Hoi. clear Hoi.
+      assert (Hfirst : firstn maxsz (acc ++ concat (s :: rest)) = acc ++ firstn room s).
+      { cbn [concat]. rewrite firstn_app. rewrite (firstn_all2 acc) by lia. f_equal.
+        rewrite firstn_app. replace (maxsz - length acc - length s) with 0 by lia.
+        cbn [firstn]. rewrite app_nil_r. reflexivity. }
+      assert (Hlong : (length (acc ++ concat (s :: rest)) <=? maxsz)%nat = false).
+      { apply Nat.leb_gt. cbn [concat]. rewrite !app_length. lia. }
+      unfold within. rewrite Hlong, Hfirst. cbn [orb].
+      destruct (whole (acc ++ firstn room s)) as [r st'] eqn:E. cbn [fst].
+      destruct r as [| |e]; cbn [is_again negb].
+      + destruct (connection maxsz (reset_request st') rest) as [acts st2] eqn:Ec. cbn [fst].
+        exists 0. split; [cbn; lia|]. split; [reflexivity|].
         cbn [firstn concat]. rewrite ?app_nil_r, ?app_length. cbn [length]. lia.
-    - rewrite (merge_from_init typed_other set_cookie KRequest acc stc s Hacc).
+      + (* the request is complete within the limit: this is the last read *)
+        destruct rest as [|s2 rest'].
+        * cbn [connection fst length Nat.sub repeat app concat]. rewrite app_nil_r.
+          replace (acc ++ s) with ((acc ++ firstn room s) ++ skipn room s)
+            by (rewrite <- app_assoc, firstn_skipn; reflexivity).
+          rewrite (act_of_stable _ (skipn room s) PDone st' E ltac:(discriminate)), E. reflexivity.
+        * exfalso. pose proof (Hpre 1 ltac:(cbn; lia)) as H1. cbn [firstn concat] in H1. rewrite app_nil_r in H1.
+          replace (acc ++ s) with ((acc ++ firstn room s) ++ skipn room s) in H1
+            by (rewrite <- app_assoc, firstn_skipn; reflexivity).
+          rewrite (whole_stable typed_other set_cookie KRequest _ (skipn room s) PDone st' E ltac:(discriminate)) in H1.
+          discriminate.
+      + destruct rest as [|s2 rest'].
+        * cbn [connection fst length Nat.sub repeat app concat]. rewrite app_nil_r.
+          replace (acc ++ s) with ((acc ++ firstn room s) ++ skipn room s)
+            by (rewrite <- app_assoc, firstn_skipn; reflexivity).
+          rewrite (act_of_stable _ (skipn room s) (PErr e) st' E ltac:(discriminate)), E. reflexivity.
+        * exfalso. pose proof (Hpre 1 ltac:(cbn; lia)) as H1. cbn [firstn concat] in H1. rewrite app_nil_r in H1.
+          replace (acc ++ s) with ((acc ++ firstn room s) ++ skipn room s) in H1
+            by (rewrite <- app_assoc, firstn_skipn; reflexivity).
+          rewrite (whole_stable typed_other set_cookie KRequest _ (skipn room s) (PErr e) st' E ltac:(discriminate)) in H1.
+          discriminate.
+    - rewrite (on_input_fits maxsz stc s) by (rewrite Hbuf; lia).
+      rewrite (merge_from_init typed_other set_cookie KRequest acc stc s Hacc).
       destruct rest as [|s2 rest'].
       + cbn [concat]. rewrite app_nil_r.
-        destruct (Nat.leb_spec (length (acc ++ s)) maxsz) as [Hle|Hgt]; [|rewrite app_length in Hgt; lia].
+        unfold within. replace (length (acc ++ s) <=? maxsz)%nat with true
+          by (symmetry; apply Nat.leb_le; rewrite app_length; lia). cbn [orb].
         destruct (whole (acc ++ s)) as [[| |e] st'] eqn:E; cbn; reflexivity.
       + pose proof (Hpre 1 ltac:(cbn; lia)) as H1. cbn [firstn concat] in H1. rewrite app_nil_r in H1.
         destruct (whole (acc ++ s)) as [r st'] eqn:E. cbn [fst] in H1. subst r.
@@ -183,7 +474,7 @@ Section H.
         destruct (connection maxsz st' (s2 :: rest')) as [acts st2] eqn:Ec. cbn [fst] in *.
         replace (acc ++ concat (s :: s2 :: rest')) with ((acc ++ s) ++ concat (s2 :: rest'))
           by (cbn [concat]; rewrite <- app_assoc; reflexivity).
-        destruct (Nat.leb_spec (length ((acc ++ s) ++ concat (s2 :: rest'))) maxsz) as [Hle|Hgt].
+        destruct (within maxsz ((acc ++ s) ++ concat (s2 :: rest'))).
         * rewrite IH. cbn [length Nat.sub]. rewrite Nat.sub_0_r. reflexivity.
         * destruct IH as [j [Hj [Hacts Hlen]]].
           exists (S j). split; [cbn [length] in *; lia|]. split.
